@@ -16,10 +16,12 @@ func Sort(items []Object) *Error {
 		if !ok {
 			comparableErr = fmt.Sprintf(
 				"type error: sorted() encountered a non-comparable item (%s)", itemA.Type())
+			return false
 		}
 		if _, ok := itemB.(Comparable); !ok {
 			comparableErr = fmt.Sprintf(
 				"type error: sorted() encountered a non-comparable item (%s)", itemB.Type())
+			return false
 		}
 		result, err := compA.Compare(itemB)
 		if err != nil {
